@@ -790,6 +790,9 @@ def check_C12(ctx):
     for cfg in cfgs:
         run_apidrv(ctx, build_apidrv(cfg), ["twin"], cfg, count=4000 if ctx.tier == "quick" else 20000)
     run_apidrv(ctx, build_apidrv("tc", release=True), ["twin"], "tc-release", count=4000 if ctx.tier == "quick" else 20000)
+    if ctx.tier == "thorough":
+        # the bumping twins under Miri (unchecked slicing after bumps to the very end of exactly sized blocks)
+        miri_apidrv(ctx, ["twin"], "tc", release=True)
 
 
 
